@@ -22,7 +22,9 @@ CONSTANTS
   DEV_StaleExports,  \* remove_node / unexport release only the node's last export name
   DEV_DoubleRemove,  \* remove_node removes a dependant reachable twice a second time (panic)
   DEV_UndefDep,      \* a definition whose dependency is not defined encodes to an invalid component
-  DEV_DefRename      \* exporting a definition under a further name replaces the name it is encoded under
+  DEV_DefRename,     \* exporting a definition under a further name replaces the name it is encoded under
+  InitReg            \* packages registered before the explored history starts (registered by the
+                     \* first operations of every history)
 
 VARIABLES g, hist
 vars == <<g, hist>>
@@ -239,7 +241,13 @@ IEncodeOutcome(s) ==
 (***************************************************************************)
 (* The state machine.                                                      *)
 (***************************************************************************)
-Init == g = EmptyImpl /\ hist = <<>>
+RECURSIVE RegisterAll(_, _, _)
+RegisterAll(s, h, P) ==
+  IF P = {} THEN <<s, h>>
+  ELSE LET p == CHOOSE x \in P : TRUE
+           o == Op("register", 0, 0, p, NONE)
+       IN RegisterAll(IRegister(s, p).next, Append(h, [op |-> o, res |-> "ok"]), P \ {p})
+Init == LET r == RegisterAll(EmptyImpl, <<>>, InitReg) IN g = r[1] /\ hist = r[2]
 
 Do(o) ==
   /\ ~g.panic
